@@ -15,6 +15,7 @@ import Driver.ShaCrypt
 import Driver.Backend
 import Driver.Libpass
 import Driver.Verify
+import Driver.Md4
 import Driver.TotpSerial
 import Driver.Shapes
 /-
@@ -40,6 +41,7 @@ def dispatch (line : String) : String :=
   | "backend" :: rest => Driver.Backend.handle rest
   | "lp" :: rest => Driver.Libpass.handle rest
   | "vfy" :: rest => Driver.Verify.handle rest
+  | "md4" :: rest => Driver.Md4.handle rest
   | "tser" :: rest => Driver.TotpSerial.handle rest
   | "shape" :: rest => Driver.Shapes.handle rest
   | _ => Driver.bad
